@@ -144,10 +144,19 @@ pub fn binop(op: BinOp, a: &V, b: &V) -> R<V> {
                     if *y == 0.0 {
                         return Err(DIV0);
                     }
+                    if w == Ty::Long {
+                        return inexact("R21: precision of a quotient with a LONG operand");
+                    }
                     let t = if w == Ty::Int || w == Ty::Single { Ty::Single } else { Ty::Double };
                     let q = x / y;
                     if q * y != *x {
                         return inexact("inexact quotient");
+                    }
+                    // known finding (division narrows its quotient when it is within 1e-4 of a whole
+                    // number): the generators stay out of that zone
+                    let frac = (q - q.round()).abs();
+                    if frac != 0.0 && frac < 0.001 {
+                        return inexact("R22: quotient within 0.001 of a whole number");
                     }
                     check(t, q)
                 }
